@@ -95,10 +95,17 @@ CHECKS += [
      "note": E1_NOTE},
 ]
 
+CHECKS += [
+    {"id": "C04", "engine": "E2-choice-explorer", "level": "model_checking", "design_ref": "DESIGN.md §3 C04",
+     "technique": "exhaustive exploration of prune/extend trajectories of the real beam search over a grid of history-dependent table language models, widths 1..beyond exhaustive, eos settings, step limits and batches, against chain-rule re-scoring, complete-sequence enumeration and a reference beam written from the documentation",
+     "text": "A purely state-threaded table LM (its state only survives through extract_by_src) makes any mis-threading visible as a score that differs from the chain rule of the returned tokens. Every (table, V<=3, width 1..V^T+3, eos in {None, each token}, finish_all_paths, max_iters 0..3/4 and unbounded, batch None/1/3 with per-element offsets) search: finite-score paths distinct, stop at first eos, score == chain rule, best-first order, -inf slots last, full set at exhaustive width, batch element == solo; per-step state observed through the documented update_log_probs_for_step hook; beam_search_advance stepwise vs top-k of the joint table. States = distinct (step, beam contents), transitions = prune/extend steps, traces = searches re-scored by the oracle.",
+     "note": MC_NOTE},
+]
+
 _PENDING = "check under construction in this session; not yet claimed"
 NOT_APPLICABLE = [
     {"property_id": p, "reason": _PENDING}
-    for p in ["C04", "C10", "C13", "C14"]
+    for p in ["C10", "C13", "C14"]
 ]
 
 NOTES = ("All checks are bounded-exhaustive explorations of the real implementation (model-checking family); "
